@@ -4,7 +4,7 @@
   choice), and otherwise only ever cleared.
 -/
 import DymVerif.Lemmas.CoreRolesOut
-namespace DymVerif.Core
+namespace DymVerif.Core.Roles
 
 /-- the successor slot of rollapp `id` -/
 def succOf (s : St) (id : Nat) : Option (Option Addr) := (getRa s id).map (·.successor)
@@ -461,4 +461,4 @@ theorem beginBlock_succ (s : St) (dt : Nat) (id : Nat) :
             rw [this]; exact hb.2)
   exact this.2
 
-end DymVerif.Core
+end DymVerif.Core.Roles
